@@ -371,7 +371,7 @@ class Unit:
         a, k, e = s.find_fn(kv['name'], lo, hi, int(kv.get('nth', 0)))
         return s.text[k:e], s.text[a:k]
 
-    def do_fn(self, kv, sections):
+    def do_fn(self, kv, sections, vacuity=False):
         text, prefix = self.get_fn_text(kv)
         label = kv.get('label') or ((kv.get('in', '') + '::' if kv.get('in') else '') + kv['name'])
         self.items.append(dict(label='fn ' + label, file=kv['file'], digest=X.digest(text)))
@@ -427,6 +427,11 @@ class Unit:
         if spec:
             for ln in spec:
                 self.emit(ln, dict(kind='tmpl', label=label, section='spec'))
+        if vacuity and body is not None and kv.get('body') != 'external':
+            vorg = dict(kind='tmpl', label=label, section='vacuity')
+            self.emit('    { proof { assert(false); } vstd::pervasive::unreached() }', vorg)
+            self.fn_labels[label] = dict(start=start, end=len(self.lines))
+            return
         if body is None or kv.get('body') == 'external':
             if body is None:
                 self.emit('    ;', org)
@@ -563,50 +568,13 @@ class Unit:
                     i += 1
                 if i >= len(tl):
                     raise Unsupported('unterminated //@fn block')
-                if vacuity and kv.get('body') != 'external':
-                    sections = {'spec': sections.get('spec', []), 'vacuity': True}
-                    self.do_fn_vacuity(kv, sections)
-                else:
-                    self.do_fn(kv, sections)
+                self.do_fn(kv, sections, vacuity=vacuity)
             elif s.startswith('//@'):
                 raise Unsupported('unknown directive: ' + s)
             else:
                 self.lines.append((ln, T))
             i += 1
         return '\n'.join(l for l, _ in self.lines) + '\n'
-
-    def do_fn_vacuity(self, kv, sections):
-        """Vacuity mode: same signature + contract, body replaced by `assert(false)`: the
-        function MUST fail, otherwise its precondition (with the axioms in scope) is
-        contradictory."""
-        kv = dict(kv)
-        text, prefix = self.get_fn_text(kv)
-        ft = X.FnText(text)
-        if not ft.has_body:
-            return
-        rules = set(filter(None, kv.get('rules', '').split(',')))
-        sig = ft.signature()
-        if 'R-mutself' in rules:
-            sig = re.sub(r'\(\s*mut\s+self\b', '(self', sig)
-        label = kv.get('label') or ((kv.get('in', '') + '::' if kv.get('in') else '') + kv['name'])
-        if kv.get('ret'):
-            ft2 = X.FnText(sig + '{}')
-            rs, re_ = ft2.ret
-            rtype = sig[rs:re_].rstrip()
-            tail = sig[re_:]
-            sig = sig[:rs] + '(%s: %s)' % (kv['ret'], rtype) + ('\n' if tail.strip() else ' ') + tail
-        if kv.get('rename'):
-            sig = re.sub(r'\bfn\s+' + re.escape(kv['name']) + r'\b', 'fn ' + kv['rename'], sig, 1)
-        if kv.get('vis'):
-            sig = kv['vis'] + ' ' + sig
-        start = len(self.lines)
-        org = dict(kind='tmpl', label=label, section='vacuity')
-        self.emit('    ' + sig.rstrip(), org)
-        for ln in sections.get('spec', []):
-            # drop ensures: only the preconditions matter
-            self.emit(ln, org)
-        self.emit('    { proof { assert(false); } vstd::pervasive::unreached() }', org)
-        self.fn_labels[label] = dict(start=start, end=len(self.lines))
 
 
 # --------------------------------------------------------------------------------------
